@@ -59,19 +59,21 @@ struct Batch {
     docs: Vec<String>,
     rule_order: Vec<usize>,
     doc_order: Vec<usize>,
+    /// every rules file is <dir-i>/policy.guard and every data file <dir-j>/template.json
+    same_names: bool,
 }
 
 fn check(b: &Batch, evals: &mut u64) -> Result<Option<usize>, (String, String)> {
     let dir = fresh_dir("c12");
     let mut rpaths = vec![];
     for (i, r) in b.rules.iter().enumerate() {
-        let p = dir.join(format!("rules/r{}.guard", i));
+        let p = if b.same_names { dir.join(format!("rules/t{}/policy.guard", i)) } else { dir.join(format!("rules/r{}.guard", i)) };
         write_file(&p, r);
         rpaths.push(p.to_string_lossy().to_string());
     }
     let mut dpaths = vec![];
     for (i, d) in b.docs.iter().enumerate() {
-        let p = dir.join(format!("data/d{}.json", i));
+        let p = if b.same_names { dir.join(format!("data/e{}/template.json", i)) } else { dir.join(format!("data/d{}.json", i)) };
         write_file(&p, d);
         dpaths.push(p.to_string_lossy().to_string());
         // distinct, increasing modification times for -m
@@ -191,7 +193,7 @@ fn check(b: &Batch, evals: &mut u64) -> Result<Option<usize>, (String, String)> 
     }
     // ... and the rules file names in clause contexts
     for (k, ri) in b.rule_order.iter().enumerate() {
-        out = out.replace(&format!("RULES_STDIN[{}]", k + 1), &format!("r{}.guard", ri));
+        out = out.replace(&format!("RULES_STDIN[{}]", k + 1), &if b.same_names { "policy.guard".to_string() } else { format!("r{}.guard", ri) });
     }
     compare("payload", &out, &x.code, &by_path)?;
     runs += 1;
@@ -199,7 +201,7 @@ fn check(b: &Batch, evals: &mut u64) -> Result<Option<usize>, (String, String)> 
 }
 
 fn batch_json(b: &Batch) -> J {
-    json!({"rules": b.rules, "docs": b.docs, "rule_order": b.rule_order, "doc_order": b.doc_order})
+    json!({"rules": b.rules, "docs": b.docs, "rule_order": b.rule_order, "doc_order": b.doc_order, "same_names": b.same_names})
 }
 
 pub fn replay(case: &J) -> CaseResult {
@@ -208,7 +210,7 @@ pub fn replay(case: &J) -> CaseResult {
     }
     let strs = |k: &str| -> Vec<String> { case[k].as_array().map(|a| a.iter().map(|x| x.as_str().unwrap_or("").to_string()).collect()).unwrap_or_default() };
     let idx = |k: &str| -> Vec<usize> { case[k].as_array().map(|a| a.iter().map(|x| x.as_u64().unwrap_or(0) as usize).collect()).unwrap_or_default() };
-    let b = Batch { rules: strs("rules"), docs: strs("docs"), rule_order: idx("rule_order"), doc_order: idx("doc_order") };
+    let b = Batch { rules: strs("rules"), docs: strs("docs"), rule_order: idx("rule_order"), doc_order: idx("doc_order"), same_names: case["same_names"].as_bool().unwrap_or(false) };
     let mut ev = 0;
     match check(&b, &mut ev) {
         Ok(_) => CaseResult::Pass(Info::default()),
@@ -236,14 +238,14 @@ fn random_case(u: &mut Choices, sz: Size) -> CaseResult {
         let f = gen_wide_file(u, &docs[i % nd], sz, false);
         rules.push(print_file(&f));
     }
-    let b = Batch { rules, docs: docs.iter().map(|d| d.to_json()).collect(), rule_order: shuffle(u, nr), doc_order: shuffle(u, nd) };
+    let b = Batch { rules, docs: docs.iter().map(|d| d.to_json()).collect(), rule_order: shuffle(u, nr), doc_order: shuffle(u, nd), same_names: u.chance(1, 3) };
     let mut evals = 0;
     match check(&b, &mut evals) {
         Ok(None) => CaseResult::Discard("evaluation-error"),
         Ok(Some(runs)) => CaseResult::Pass(Info {
             nontrivial: nr >= 2 && nd >= 2,
             key: hash_case(&[&b.rules.join("\u{1}"), &b.docs.join("\u{1}")]),
-            classes: vec![format!("rules-files:{}", nr), format!("data-files:{}", nd), format!("batch-runs:{}", runs)],
+            classes: vec![format!("rules-files:{}", nr), format!("data-files:{}", nd), format!("batch-runs:{}", runs), format!("same-base-names:{}", b.same_names)],
             evals,
             sample: Some(batch_json(&b)),
         }),
@@ -328,7 +330,7 @@ fn random_test(u: &mut Choices, sz: Size) -> CaseResult {
 
 pub fn run(tier: Tier, seed: u64) -> i32 {
     let spec = EvidenceSpec {
-        rule: "Stage 'batches': 1-3 wide rules files that share file-level variable names, rule names and parameterised-rule names with different definitions x 1-4 CloudFormation-shaped documents. Every (rules file, data file) pair is validated alone (structured JSON and console). The batch is then run as explicit file lists (file order and a generated permutation), as directories (-a, -m with distinct modification times set by the harness, and default order) and as --payload lists: for every data file the batch report must equal the union of the singleton reports (compliant / not_applicable as sets, not_compliant entries as a multiset, status by the partition), the console output must be the multiset union of the singleton outputs, and the exit code is 19 iff some singleton is FAIL. Stage 'test-cases': 2-4 test cases in one spec file vs one spec file per case (`test -o json`). Non-trivial: >=2 rules files and >=2 documents (test: >=2 cases); distinct by hash of all texts.".into(),
+        rule: "Stage 'batches': 1-3 wide rules files that share file-level variable names, rule names and parameterised-rule names with different definitions x 1-4 CloudFormation-shaped documents. Every (rules file, data file) pair is validated alone (structured JSON and console). The batch is then run as explicit file lists (file order and a generated permutation), with distinct base names in one directory or the same base name in a directory each, as directories (-a, -m with distinct modification times set by the harness, and default order) and as --payload lists: for every data file the batch report must equal the union of the singleton reports (compliant / not_applicable as sets, not_compliant entries as a multiset, status by the partition), the console output must be the multiset union of the singleton outputs, and the exit code is 19 iff some singleton is FAIL. Stage 'test-cases': 2-4 test cases in one spec file vs one spec file per case (`test -o json`). Non-trivial: >=2 rules files and >=2 documents (test: >=2 cases); distinct by hash of all texts.".into(),
         assumptions: vec!["batches containing a pair that raises an evaluation error are discarded".into()],
     };
     execute("C12", tier, seed, spec, &replay, &|run: &Session| {
